@@ -19,6 +19,11 @@ CLAIMED = {
    design="4 (C13)",
    note="TypeScript output is not checked (no TypeScript toolchain installed). Trusted: protoc-gen-go output, go build/vet as oracle.",
    technique="contract-based deductive verification of the import/usage agreement (functional contracts, text-event obligations, lemma) + structural congruence rule; bounded build-and-vet family of emitted packages as replayer and stand-in"),
+ "C20": dict(
+   text="Deductive for the constant part: the emitted example selectors (string, int, bool, float) are proved for every example table and every field path to return one of the field's declared examples parsed to the field's type whenever the list is non-empty and parses, the default only otherwise (rand.Intn as an arbitrary index), and the mock field emitters are proved to terminate on recursive response types (C16 measure). Whether the mock file builds and whether each per-field assignment uses the selector of the field's kind under the table's key depends on the descriptor and is decided by bounded families run in the quick tier too: 47 definitions built and vetted with generate_mock=true, and a mock RPC invoked 60 times, serialised, and compared with the declared examples. Three genuine defects found this way were repaired by fix: commits (non-termination, ill-typed assignments, nested example keys).",
+   design="4 (C20)",
+   note="Not checked: conformance of the mock answer to the published OpenAPI schema (C06 is not decidable here). Trusted: strconv, math/rand range, protojson.",
+   technique="contract-based deductive verification of the extracted emitted selector templates + termination contracts; bounded build/vet and runtime families as replayer and stand-in"),
  "C16": dict(
    text="Deductive where a contract can state it: every function on a static call cycle of the generator packages (41 today) carries a `decreases` measure whose VC is discharged at every recursive call (nesting depth of descriptors, or the number of full names not yet in a visited/on-stack set, with the set-growth invariants proved through the loops); a structural rule refuses any recursive function without a measure and any loop that is not a range over a finite collection or a simple counting loop; a zero-annotation bounds sweep proves every index, slice, type-assertion and explicit-panic site of all 550 functions of the generator packages and the five plugin mains unreachable-or-in-range for all arguments. Two genuine defects found this way were repaired with fix: commits (unbounded mock recursion on self-containing response types, panic-on-error in the OpenAPI main). Crash-freedom of whole plugin runs is additionally sampled by a bounded family (descriptor shapes x plugins x parameters, thorough tier) that also serves as the replayer.",
    design="4 (C16)",
